@@ -172,3 +172,56 @@ Example c12_ex_finally_fails :
   run s = [MainEnter; Upload; SyncOk; Routes; FwStart; MainEnd (EOther CKeyboardInterrupt);
            FwClose; Exit (EFatal FCleanup)].
 Proof. vm_compute. split; reflexivity. Qed.
+
+(* ------------------------------------------------------------------ *)
+(* Which process is "the helper": FirewallClient.__init__ (client.py:208-390),
+   Model/FwInit.v.  It runs before client.main's `try:`; `run s` above starts
+   where it has succeeded.  The candidates (sudo ..., doas ..., the bare command)
+   are arbitrary: any of them may be absent, exit at once with any status, print
+   any number of lines of anything before or instead of READY. *)
+From Coq Require String.
+From SV Require Import Model.FwInit Proofs.FwInit_lemmas.
+Import String.StringSyntax.
+Delimit Scope string_scope with string.
+
+(* (8) The process the client goes on with was really started, had not exited with a
+       failure status when looked at, and ANNOUNCED ITSELF with a READY line among its
+       first 101 lines (whose text names the method the client then plans for); every
+       candidate tried before it failed one of these tests. *)
+Theorem c12_helper_verified : forall cs k m,
+  fw_init cs = Some (k, m) ->
+  exists c, nth_error cs k = Some c /\
+    c_spawn c = true /\ (c_rv c = None \/ c_rv c = Some 0%Z) /\
+    (exists line, In line (firstn 101 (c_lines c)) /\ is_ready line = true /\ m = method_of line) /\
+    forall j c', (j < k)%nat -> nth_error cs j = Some c' -> cand_result c' = None.
+Proof.
+  intros cs k m H. destruct (fw_init_chosen cs k m H) as (c & Hn & Hr & Hb).
+  destruct (cand_result_sound c m Hr) as (H1 & H2 & H3).
+  exists c. repeat split; assumption.
+Qed.
+Print Assumptions c12_helper_verified.
+
+(* (9) No helper, no session: start-up stops (Fatal, before the `try:` of client.main,
+       hence before any event of `run`) exactly when every candidate failed. *)
+Theorem c12_no_helper_iff_all_failed : forall cs,
+  fw_init cs = None <-> forall c, In c cs -> cand_result c = None.
+Proof. exact fw_init_none. Qed.
+Print Assumptions c12_no_helper_iff_all_failed.
+
+(* (10) Elevation commands are tried before the bare command, never by an administrator. *)
+Theorem c12_try_order : forall admin doas_found sudo_found openbsd,
+  (admin = true -> try_order admin doas_found sudo_found openbsd = [PDirect]) /\
+  (admin = false -> exists a b, try_order admin doas_found sudo_found openbsd = [a; b; PDirect] /\
+                     ((a = PSudo /\ b = PDoas) \/ (a = PDoas /\ b = PSudo))).
+Proof. exact try_order_shape. Qed.
+Print Assumptions c12_try_order.
+
+(* sudo refuses (wrong password, status 1), doas is not installed, the bare command answers
+   after a lecture line: the third candidate is the helper, for method nft *)
+Example c12_ex_init :
+  let rd := fun s => Lib.Bytes.bytes_of_string s in
+  fw_init [ mkCand true [] (Some 1%Z); mkCand false [] None;
+            mkCand true [rd "We trust you have received the usual lecture"%string; rd "READY nft
+"%string] None ] = Some (2%nat, rd "nft"%string) /\
+  fw_init [ mkCand true [rd "Sorry, try again."%string] (Some 0%Z); mkCand false [] None ] = None.
+Proof. vm_compute. split; reflexivity. Qed.
